@@ -181,7 +181,17 @@ class StdioClient:
                     lines = buffer.split("\n")
                     buffer = lines[-1]
 
-                for line in lines[:-1]:
+                for n_line, line in enumerate(lines[:-1]):
+                    # A child that floods its output with lines that are not
+                    # messages keeps this loop from ever suspending: every read
+                    # has data ready (a chunk can hold tens of thousands of such
+                    # lines), the rest of the program starves, and a cancellation
+                    # aimed at a task that is about to be resumed anyway is put off
+                    # turn after turn. Yield regularly, so that leaving the context
+                    # stays bounded whatever the child writes
+                    if n_line % 64 == 0:
+                        await anyio.lowlevel.checkpoint()
+
                     line = line.strip()
                     if not line:
                         continue
